@@ -223,7 +223,7 @@ structure TarOk (m : TarMember) : Prop where
   mode : m.mode < 8 ^ 7
   uid : m.uid < 8 ^ 7
   gid : m.gid < 8 ^ 7
-  size : m.data.length < 8 ^ 11
+  size : if m.b256 then m.data.length < 2 ^ 63 else m.data.length < 8 ^ 11
   mtime : m.mtime < 8 ^ 11
   chksum : m.chksum < 8 ^ 7
   version : m.version < 8
@@ -234,6 +234,74 @@ theorem takeN_padNul (w : Nat) (s r : Bytes) (h : s.length ≤ w) : takeN w (pad
   takeN_append _ _ _ (padNul_length w s h)
 theorem takeN_octField (w n : Nat) (r : Bytes) (h : 0 < w) : takeN w (octField w n ++ r) = some (octField w n, r) :=
   takeN_append _ _ _ (octField_length w n h)
+
+theorem toBE_length (w n : Nat) : (toBE w n).length = w := by
+  induction w with
+  | zero => rfl
+  | succ w ih => simp [toBE, ih]
+
+theorem beFold_toBE (w n acc : Nat) :
+    (toBE w n).foldl (fun acc b => 256 * acc + b.toNat) acc = acc * 256 ^ w + n % 256 ^ w := by
+  induction w generalizing acc with
+  | zero => simp [toBE, Nat.mod_one]
+  | succ w ih =>
+    have hb : (UInt8.ofNat (n / 256 ^ w % 256)).toNat = n / 256 ^ w % 256 := by
+      simp [UInt8.toNat_ofNat']
+    simp only [toBE, List.foldl_cons, hb, ih]
+    rw [Nat.mod_pow_succ, Nat.pow_succ, Nat.add_mul, Nat.mul_comm 256 acc, Nat.mul_assoc, Nat.mul_comm 256 (256 ^ w)]
+    rw [Nat.mul_comm (n / 256 ^ w % 256) (256 ^ w)]
+    omega
+
+theorem beNat_toBE (w n : Nat) : beNat (toBE w n) = n % 256 ^ w := by
+  unfold beNat
+  rw [beFold_toBE]
+  simp
+
+theorem tarNum_oct (f : Bytes) (h : ∀ b, f.head? = some b → b.toNat < 128) : tarNum f = parseOct (cstr f) := by
+  cases f with
+  | nil => rfl
+  | cons b r => simp [tarNum, h b rfl]
+
+theorem octField_head (w n : Nat) (hw : 2 ≤ w) : ∀ b, (octField w n).head? = some b → b.toNat < 128 := by
+  obtain ⟨k, rfl⟩ : ∃ k, w = k + 2 := ⟨w - 2, by omega⟩
+  intro b hb
+  have hd := toOct_digit (k + 1) n
+  have e : octField (k + 2) n = UInt8.ofNat (48 + n / 8 ^ k % 8) :: (toOct k n ++ [0]) := rfl
+  rw [e] at hb
+  simp only [List.head?_cons, Option.some.injEq] at hb
+  have := hd b (by rw [← hb]; simp [toOct])
+  omega
+
+theorem tarNum_field (w n : Nat) (hw : 2 ≤ w) (hn : n < 8 ^ (w - 1)) (h64 : n < 2 ^ 64) : tarNum (octField w n) = some n := by
+  rw [tarNum_oct _ (octField_head w n hw), parseOct_field w n hw hn h64]
+
+theorem b256Field_length (n : Nat) : (b256Field n).length = 12 := by simp [b256Field, toBE_length]
+
+theorem tarNum_b256 (n : Nat) (h : n < 2 ^ 63) : tarNum (b256Field n) = some n := by
+  have h8 : n / 256 ^ 8 = 0 := Nat.div_eq_of_lt (Nat.lt_of_lt_of_le h (by decide))
+  have h9 : n / 256 ^ 9 = 0 := Nat.div_eq_of_lt (Nat.lt_of_lt_of_le h (by decide))
+  have h10 : n / 256 ^ 10 = 0 := Nat.div_eq_of_lt (Nat.lt_of_lt_of_le h (by decide))
+  have e : toBE 11 n = [0, 0, 0] ++ toBE 8 n := by
+    simp [toBE, h8, h9, h10]
+  have hl : (toBE 8 n).length = 8 := toBE_length 8 n
+  have hv : beNat (toBE 8 n) = n := by
+    rw [beNat_toBE]; exact Nat.mod_eq_of_lt (Nat.lt_of_lt_of_le h (by decide))
+  simp only [tarNum, b256Field, e]
+  simp [hl, hv, h]
+
+theorem tarSizeField_length (m : TarMember) : (tarSizeField m).length = 12 := by
+  unfold tarSizeField
+  split
+  · exact b256Field_length _
+  · exact octField_length 12 _ (by decide)
+
+theorem tarNum_sizeField (m : TarMember) (h : if m.b256 then m.data.length < 2 ^ 63 else m.data.length < 8 ^ 11) :
+    tarNum (tarSizeField m) = some m.data.length := by
+  unfold tarSizeField
+  split <;> rename_i hb
+  · simp only [hb, if_true] at h; exact tarNum_b256 _ h
+  · simp only [hb] at h
+    exact tarNum_field 12 _ (by decide) h (Nat.lt_of_lt_of_le h (by decide))
 
 theorem blockPad_aligned (pos : Nat) (h : pos % 512 = 0) : blockPad (pos + 500) = 12 := by
   unfold blockPad; omega
@@ -254,20 +322,20 @@ theorem tar_entry_rt (m : TarMember) (ok : TarOk m) (pos : Nat) (hpos : pos % 51
   have tpad : ∀ r : Bytes, takeN (blockPad m.data.length) (List.replicate (blockPad m.data.length) (0 : UInt8) ++ r) = some (List.replicate (blockPad m.data.length) 0, r) :=
     fun r => takeN_append _ _ _ (by simp)
   have hu6 : ustar.length ≤ 6 := by decide
-  have osz : parseOct (cstr (octField 12 m.data.length)) = some m.data.length :=
-    parseOct_field 12 _ (by decide) hsize (Nat.lt_of_lt_of_le hsize (by decide))
+  have osz : tarNum (tarSizeField m) = some m.data.length := tarNum_sizeField m hsize
+  have tsz : ∀ r : Bytes, takeN 12 (tarSizeField m ++ r) = some (tarSizeField m, r) := fun r => takeN_append _ _ _ (tarSizeField_length m)
   unfold parseTarEntry writeTarMember writeTarHeader
   simp only [List.append_assoc, List.cons_append, List.nil_append,
     takeN_padNul _ _ _ hname.1, takeN_padNul _ _ _ hlink.1, takeN_padNul _ _ _ hun.1, takeN_padNul _ _ _ hgn.1,
     takeN_padNul _ _ _ hpf.1, takeN_padNul _ _ _ hu6, takeN_octField _ _ _ p8, takeN_octField _ _ _ p12, takeN_octField _ _ _ p2,
-    t1, Option.bind_eq_bind, Option.bind_some, osz, trimCut_ustar, ne_eq, not_true_eq_false, if_false,
+    t1, tsz, Option.bind_eq_bind, Option.bind_some, osz, trimCut_ustar, ne_eq, not_true_eq_false, if_false,
     blockPad_aligned pos hpos, t12, tdata, blockPad_data pos _ hpos, tpad]
   have b64 : ∀ n, n < 8 ^ 7 → n < 2 ^ 64 := fun n h => Nat.lt_of_lt_of_le h (by decide)
   have c64 : ∀ n, n < 8 ^ 11 → n < 2 ^ 64 := fun n h => Nat.lt_of_lt_of_le h (by decide)
-  rw [parseOct_field 8 m.mode (by decide) hmode (b64 _ hmode), parseOct_field 8 m.uid (by decide) huid (b64 _ huid),
-    parseOct_field 8 m.gid (by decide) hgid (b64 _ hgid), parseOct_field 12 m.mtime (by decide) hmtime (c64 _ hmtime),
+  rw [tarNum_field 8 m.mode (by decide) hmode (b64 _ hmode), tarNum_field 8 m.uid (by decide) huid (b64 _ huid),
+    tarNum_field 8 m.gid (by decide) hgid (b64 _ hgid), tarNum_field 12 m.mtime (by decide) hmtime (c64 _ hmtime),
     parseOct_field 8 m.chksum (by decide) hchk (b64 _ hchk), parseOct_field 2 m.version (by decide) hver (Nat.lt_of_lt_of_le hver (by decide)),
-    parseOct_field 8 m.devmajor (by decide) hmaj (b64 _ hmaj), parseOct_field 8 m.devminor (by decide) hmin (b64 _ hmin),
+    tarNum_field 8 m.devmajor (by decide) hmaj (b64 _ hmaj), tarNum_field 8 m.devminor (by decide) hmin (b64 _ hmin),
     trimCut_padNul _ _ hname.2, trimCut_padNul _ _ hlink.2, trimCut_padNul _ _ hun.2, trimCut_padNul _ _ hgn.2, trimCut_padNul _ _ hpf.2]
   rfl
 
@@ -275,24 +343,25 @@ theorem writeTarMember_length (m : TarMember) (ok : TarOk m) : (writeTarMember m
   obtain ⟨hname, hlink, hun, hgn, hpf, _⟩ := ok
   simp only [writeTarMember, writeTarHeader, List.length_append, List.length_replicate, List.length_cons, List.length_nil,
     padNul_length _ _ hname.1, padNul_length _ _ hlink.1, padNul_length _ _ hun.1, padNul_length _ _ hgn.1, padNul_length _ _ hpf.1,
-    padNul_length 6 ustar (by decide), octField_length 8 _ (by decide), octField_length 12 _ (by decide), octField_length 2 _ (by decide)]
+    padNul_length 6 ustar (by decide), octField_length 8 _ (by decide), octField_length 12 _ (by decide), octField_length 2 _ (by decide),
+    tarSizeField_length]
 
 /-- a member's first 1024 bytes are not all zero (the magic is there): it is never taken for the end marker -/
 theorem member_not_zero (m : TarMember) (ok : TarOk m) (rest : Bytes) : allZero ((writeTarMember m ++ rest).take 1024) = false := by
   obtain ⟨hname, hlink, hun, hgn, hpf, _⟩ := ok
   have hmem : (0x75 : UInt8) ∈ (writeTarMember m ++ rest).take 1024 := by
     have e : writeTarMember m ++ rest =
-        (padNul 100 m.name ++ octField 8 m.mode ++ octField 8 m.uid ++ octField 8 m.gid ++ octField 12 m.data.length ++
+        (padNul 100 m.name ++ octField 8 m.mode ++ octField 8 m.uid ++ octField 8 m.gid ++ tarSizeField m ++
           octField 12 m.mtime ++ octField 8 m.chksum ++ [m.typeflag] ++ padNul 100 m.linkname) ++ (0x75 :: ([0x73, 0x74, 0x61, 0x72, 0] ++
           octField 2 m.version ++ padNul 32 m.uname ++ padNul 32 m.gname ++ octField 8 m.devmajor ++ octField 8 m.devminor ++
           padNul 155 m.pfx ++ List.replicate 12 0 ++ m.data ++ List.replicate (blockPad m.data.length) 0 ++ rest)) := by
       simp [writeTarMember, writeTarHeader, padNul, ustar, List.append_assoc]
     rw [e, List.take_append]
     apply List.mem_append_right
-    have hA : (padNul 100 m.name ++ octField 8 m.mode ++ octField 8 m.uid ++ octField 8 m.gid ++ octField 12 m.data.length ++
+    have hA : (padNul 100 m.name ++ octField 8 m.mode ++ octField 8 m.uid ++ octField 8 m.gid ++ tarSizeField m ++
           octField 12 m.mtime ++ octField 8 m.chksum ++ [m.typeflag] ++ padNul 100 m.linkname).length = 257 := by
       simp only [List.length_append, List.length_cons, List.length_nil, padNul_length _ _ hname.1, padNul_length _ _ hlink.1,
-        octField_length 8 _ (by decide), octField_length 12 _ (by decide)]
+        octField_length 8 _ (by decide), octField_length 12 _ (by decide), tarSizeField_length]
     rw [hA]
     simp
   unfold allZero
@@ -386,28 +455,6 @@ theorem tar_roundtrip (ms : List TarMember) (hne : ms ≠ []) (hok : ∀ m ∈ m
 
 /-! ### png -/
 
-
-theorem toBE_length (w n : Nat) : (toBE w n).length = w := by
-  induction w with
-  | zero => rfl
-  | succ w ih => simp [toBE, ih]
-
-theorem beFold_toBE (w n acc : Nat) :
-    (toBE w n).foldl (fun acc b => 256 * acc + b.toNat) acc = acc * 256 ^ w + n % 256 ^ w := by
-  induction w generalizing acc with
-  | zero => simp [toBE, Nat.mod_one]
-  | succ w ih =>
-    have hb : (UInt8.ofNat (n / 256 ^ w % 256)).toNat = n / 256 ^ w % 256 := by
-      simp [UInt8.toNat_ofNat']
-    simp only [toBE, List.foldl_cons, hb, ih]
-    rw [Nat.mod_pow_succ, Nat.pow_succ, Nat.add_mul, Nat.mul_comm 256 acc, Nat.mul_assoc, Nat.mul_comm 256 (256 ^ w)]
-    rw [Nat.mul_comm (n / 256 ^ w % 256) (256 ^ w)]
-    omega
-
-theorem beNat_toBE (w n : Nat) : beNat (toBE w n) = n % 256 ^ w := by
-  unfold beNat
-  rw [beFold_toBE]
-  simp
 
 theorem assert_valid (v : Nat) (h : v < 2 ^ 32) : uintAssertBytes v (toBE 4 v) = some "valid" := by
   unfold uintAssertBytes
